@@ -22,14 +22,16 @@ CONSTANTS HPayloads,      \* number of host sends (ids 1..HPayloads)
           StartPairs,     \* initial counters, encoded hostTx * 8 + ncpTx (hostTx = ncpRx, ncpTx = hostRx)
           MaxCancel,      \* number of caller cancellations explored
           MaxHolds,       \* stalled duplicate copies explored (0: none)
-          HoldSpan        \* a stalled copy is overtaken by at most this many frames
+          HoldSpan,       \* a stalled copy is overtaken by at most this many frames
+          MaxWF           \* 1: the host's transport may raise out of a DATA write (counts as a line fault); 0: never
 
 VARIABLES h, n, h2n, n2h, faults, hsub, nsub, hUp, nUp, res, canc, held
 vars == <<h, n, h2n, n2h, faults, hsub, nsub, hUp, nUp, res, canc, held>>
 (* held: the stalled copies, [toH |-> <<frame>> or <<>>, toN |-> ..., ageH, ageN (frames that overtook the copy), used] *)
 NoHeld == [toH |-> <<>>, toN |-> <<>>, ageH |-> 0, ageN |-> 0, used |-> 0]
 
-Init == /\ \E p \in StartPairs : h = HInitAt(p \div 8, p % 8) /\ n = NInitAt(p % 8, p \div 8)
+Init == /\ \E p \in StartPairs : \E b \in (IF MaxWF > 0 THEN BOOLEAN ELSE {FALSE}) :
+              h = [HInitAt(p \div 8, p % 8) EXCEPT !.roll = b] /\ n = NInitAt(p % 8, p \div 8)
         /\ h2n = <<>> /\ n2h = <<>> /\ faults = 0
         /\ hsub = 0 /\ nsub = 0 /\ hUp = <<>> /\ nUp = <<>>
         /\ res = [i \in 1 .. HPayloads |-> "none"] /\ canc = {} /\ held = NoHeld
@@ -65,6 +67,10 @@ HResume == /\ ResumeEnabled(h) /\ HostTake(ResumeFn(h))
            /\ UNCHANGED <<n, n2h, faults, hsub, nsub, nUp, canc, held>>
 HNext == /\ NextEnabled(h) /\ HostTake(NextFn(h))
          /\ UNCHANGED <<n, n2h, faults, hsub, nsub, nUp, canc, held>>
+(* the serial transport will raise out of the host's next DATA write (transient serial error) *)
+HArm == /\ MaxWF > 0 /\ ~h.wf /\ faults < MaxFaults /\ faults' = faults + 1
+        /\ h' = ArmFn(h)
+        /\ UNCHANGED <<n, h2n, n2h, hsub, nsub, hUp, nUp, res, canc, held>>
 (* cancelling the caller of a send: the shielded task goes on, no link state changes *)
 HCancel(i) == /\ i \in 1 .. hsub /\ res[i] = "none" /\ i \notin canc /\ Cardinality(canc) < MaxCancel
               /\ canc' = canc \cup {i}
@@ -128,7 +134,7 @@ TNDup     == ToNcp("dup")
 THHold    == ToHost("hold")
 TNHold    == ToNcp("hold")
 HCancelAny == \E i \in 1 .. HPayloads : HCancel(i)
-Next == \/ HSubmit \/ HTimer \/ HResume \/ HNext \/ NSubmit \/ NTimer \/ HCancelAny
+Next == \/ HSubmit \/ HTimer \/ HResume \/ HNext \/ NSubmit \/ NTimer \/ HCancelAny \/ HArm
         \/ THDeliver \/ THDrop \/ THCorrupt \/ THDup \/ TNDeliver \/ TNDrop \/ TNCorrupt \/ TNDup
         \/ THHold \/ TNHold \/ ReleaseH \/ ReleaseN
 Spec == Init /\ [][Next]_vars
